@@ -51,7 +51,7 @@ class Err:
 
 def coq_str(s):
     b = s.encode("utf-8")
-    if not all(32 <= c < 127 for c in b):
+    if not all(32 <= c < 127 or c in (9, 10) for c in b):
         raise ValueError(f"string not printable ASCII: {s!r}")
     return '"' + s.replace('"', '""') + '"'
 
